@@ -38,11 +38,22 @@ Nil == [k |-> "nil"]
 (* Symbol tables: byte lengths of the leaf values the generator uses.      *)
 (* (The Go concretiser holds the same symbols; S<n> is n times "x".)       *)
 (***************************************************************************)
+\* Size sweep: literal lengths chosen so that the payload of an enclosing COMPOSITE frame is exactly 65534, 65535,
+\* 65536, 65537 or 131071 bytes (its 16-bit length field then reads FFFE, FFFF, 0000, 0001, FFFF).  over = the
+\* bytes of that payload besides the literal's own bytes, with a 3-byte literal header (frame layout, see EncF):
+\*   set   IDENT(3+10) OPERATOR(3+1) STRING(3+n)                 infix  IDENT(3+10) OPERATOR(3+1) STRING(3+n)
+\*   call  IDENT(3+8) STRING(3+n) END(1)                          block  SET(3+20+n) END(1)
+Targets == {65534, 65535, 65536, 65537, 131071}
+Fit(over, T) == IF T - over < 65535 THEN T - over ELSE T - over - 4       \* a literal of >= 65535 bytes has a 7-byte header
+SweepSpecs == {<<"set", 20>>, <<"infix", 20>>, <<"call", 15>>, <<"block", 24>>}
+SweepNs == {Fit(sp[2], T) : sp \in SweepSpecs, T \in Targets}
+Sym(n) == "S" \o ToString(n)
 StrLen(v) == CASE v = "" -> 0 [] v = "x" -> 1 [] v = "yz" -> 2 [] v = "e9" -> 2   \* "e9" = U+00E9, two bytes
                [] v = "S65535" -> 65535 [] v = "S65536" -> 65536 [] v = "S70000" -> 70000
                [] v = "if" -> 2 [] v = "else if" -> 7 [] v = "elseif" -> 6 [] v = "elsif" -> 5
                [] v = "m" -> 1 [] v = "GET /" -> 5 [] v = "h" -> 1 [] v = "eA==" -> 4
                [] v = "10.0.0.0" -> 8 [] v = "::1" -> 3 [] v = "192.168.0.1" -> 11
+               [] OTHER -> CHOOSE n \in SweepNs : v = Sym(n)            \* "S<n>" of the size sweep
 IdLen(v) == CASE v = "req.http.A" -> 10 [] v = "req.http.B" -> 10 [] v = "var.x" -> 5 [] v = "var.p" -> 5 [] v = "var.q" -> 5
               [] v = "STRING" -> 6 [] v = "INTEGER" -> 7 [] v = "BOOL" -> 4 [] v = "f" -> 1 [] v = "s" -> 1 [] v = "l" -> 1 [] v = "l:" -> 2
               [] v = "std.itoa" -> 8 [] v = "std.collect" -> 11 [] v = "std.tolower" -> 11 [] v = "std.toupper" -> 11 [] v = "std.strstr" -> 10 [] v = "lookup" -> 6 [] v = "a" -> 1 [] v = "b" -> 1 [] v = "d" -> 1
@@ -521,7 +532,44 @@ Rep(x, n) == IF n = 0 THEN <<>> ELSE <<x>> \o Rep(x, n - 1)
 Pads == IF Thorough THEN 0..15 ELSE 0..7
 Longs == {[k |-> "sub", name |-> Id("vcl_recv"), params |-> <<>>, rtype |-> Nil,
            block |-> Blk(Rep(Esi, pad) \o Rep(Set("=", Str("x")), 180))] : pad \in Pads}
-Nodes == Stmts \cup Decls \cup Longs
+SweepNode(kd, n) ==
+  CASE kd = "set" -> Set("=", Str(Sym(n)))
+    [] kd = "infix" -> Set("=", Infix("+", EB, Str(Sym(n))))
+    [] kd = "call" -> Set("=", Fcx("std.itoa", <<Str(Sym(n))>>))
+    [] kd = "block" -> Blk(<<Set("=", Str(Sym(n)))>>)
+Sweeps == {SweepNode(sp[1], Fit(sp[2], T)) : sp \in SweepSpecs, T \in Targets}
+\* the sweep hits its targets: the payload length the model computes for the enclosing composite
+SweepHit(kd, T) ==
+  LET toks == EncNode(SweepNode(kd, Fit(CHOOSE o \in {sp[2] : sp \in {q \in SweepSpecs : q[1] = kd}} : TRUE, T)))
+      want == CASE kd = "set" -> "SET_STATEMENT" [] kd = "infix" -> "INFIX_EXPRESSION" [] kd = "call" -> "FUNCTIONCALL_EXPRESSION"
+                [] kd = "block" -> "BLOCK_STATEMENT"
+      i == CHOOSE j \in 1..Len(toks) : toks[j].t = want /\ \A m \in 1..(j - 1) : toks[m].t # want
+  IN toks[i].sz = T % 65536 /\ ByteLen(SubSeq(toks, i + 1, Len(toks))) - (IF kd \in {"infix", "call"} THEN 0 ELSE 0) >= T
+ASSUME \A sp \in SweepSpecs : \A T \in Targets : SweepHit(sp[1], T)
+
+(* Deep and long structures: whatever the parser accepts must round-trip - there is no depth or length in the   *)
+(* statement.  Left-deep operand chains, nested groups / if() / blocks / if statements, else-if chains, long     *)
+(* statement and argument lists.                                                                                *)
+RECURSIVE Chain(_, _), GrpNest(_), IfxNest(_), BlkNest(_), IfNest(_)
+Chain(op, n) == IF n = 1 THEN Str("x") ELSE Infix(op, Chain(op, n - 1), IF n % 2 = 0 THEN EB ELSE Str("yz"))
+GrpNest(n) == IF n = 0 THEN EA ELSE Grp(GrpNest(n - 1))
+IfxNest(n) == IF n = 0 THEN Str("x") ELSE Ifx(EA, IfxNest(n - 1), Str("yz"))
+BlkNest(n) == IF n = 0 THEN Blk(<<Esi>>) ELSE Blk(<<BlkNest(n - 1), Esi>>)
+IfNest(n) == IF n = 0 THEN If("if", Blk(<<Esi>>), <<>>, Nil) ELSE If("if", Blk(<<IfNest(n - 1)>>), <<>>, Else(Blk(<<Esi>>)))
+ElifChain(n) == If("if", Blk(<<Esi>>), [i \in 1..n |-> If("else if", Blk(<<Esi>>), <<>>, Nil)], Nil)
+ChainLens == {2, 64, 128, 129, 200} \cup (IF Thorough THEN {400} ELSE {})
+Deeps ==
+  {Set("=", Chain("+", n)) : n \in ChainLens} \cup {Set("=", Chain("&&", n)) : n \in {129} \cup (IF Thorough THEN {300} ELSE {})}
+  \cup {Set("=", GrpNest(n)) : n \in {50, 129} \cup (IF Thorough THEN {300} ELSE {})}
+  \cup {Set("=", IfxNest(n)) : n \in {50, 129} \cup (IF Thorough THEN {200} ELSE {})}
+  \cup {BlkNest(n) : n \in {50, 129} \cup (IF Thorough THEN {300} ELSE {})}
+  \cup {IfNest(n) : n \in {50} \cup (IF Thorough THEN {150} ELSE {})}
+  \cup {ElifChain(n) : n \in {64, 129} \cup (IF Thorough THEN {300} ELSE {})}
+  \cup {Blk(Rep(Esi, IF Thorough THEN 1500 ELSE 1000)), Set("=", Fcx("std.itoa", Rep(IntL("1"), 120))),
+        [k |-> "fcall", fn |-> Id("std.collect"), args |-> Rep(Str("x"), 150)],
+        [k |-> "call", sub |-> Id("s"), args |-> Rep(IntL("1"), 100)]}
+Quiet == Longs \cup Deeps                \* too big to print frame by frame
+Nodes == Stmts \cup Decls \cup Longs \cup Sweeps \cup Deeps
 
 (***************************************************************************)
 (* Frame-level mutations for DecTotal                                      *)
@@ -569,10 +617,11 @@ Framed(s, mu) ==
     /\ IF mu.t \in LeafTypes THEN (o.t \in LeafTypes \/ o.sz = 0)   \* a container's length would become a payload length
        ELSE o.len = 0                                               \* a payload would be read as frames
 
-MutNodes == IF MutBases = "all" THEN Nodes \ Longs
+Unmutated == Longs \cup Sweeps \cup Deeps
+MutNodes == IF MutBases = "all" THEN Nodes \ Unmutated
             ELSE LongLits \cup
-                 {CHOOSE x \in (Nodes \ Longs) : x.k = kk /\ (\A y \in (Nodes \ Longs) : y.k = kk => Len(Enc(y)) <= Len(Enc(x))) :
-                    kk \in {y.k : y \in (Nodes \ Longs)}}
+                 {CHOOSE x \in (Nodes \ Unmutated) : x.k = kk /\ (\A y \in (Nodes \ Unmutated) : y.k = kk => Len(Enc(y)) <= Len(Enc(x))) :
+                    kk \in {y.k : y \in (Nodes \ Unmutated)}}
 
 VARIABLES node, mut
 vars == <<node, mut>>
@@ -585,19 +634,25 @@ Toks == ApplyMut(Enc(node), mut)
 Outcome == Dec(Toks)
 
 \* requirement: the round trip of every generated node
-RoundTrip == mut.m = "none" => (Outcome.r = "ok" /\ Len(Outcome.n) = 1 /\ Sem(Outcome.n[1]) = Sem(node))
+RoundTripOf(o) == mut.m = "none" => (o.r = "ok" /\ Len(o.n) = 1 /\ Sem(o.n[1]) = Sem(node))
+RoundTrip == RoundTripOf(Outcome)
 \* requirement: decoding terminates with statements or an error and never crashes
-DecTotal == Outcome.r \in {"ok", "err", "desync"}
+DecTotalOf(o) == o.r \in {"ok", "err", "desync"}
+DecTotal == DecTotalOf(Outcome)
 
 TokJ(s) == [i \in 1..Len(s) |-> [t |-> s[i].t, sz |-> s[i].sz, len |-> s[i].len, part |-> s[i].part]]
 Emit ==
+  LET tk == Toks            \* evaluated once per state (the deep nodes make every evaluation expensive)
+      o == Dec(tk)
+      quiet == node \in Quiet
+  IN
   PrintT(<<"BEHAVIOUR", ToJson(
      IF mut.m = "none"
-     THEN [kind |-> "rt", node |-> node, sem |-> Sem(node), toks |-> (IF node \in Longs THEN <<>> ELSE TokJ(Toks)),
-           ntoks |-> Len(Toks), bytes |-> ByteLen(Toks),
-           dec |-> Outcome.r, got |-> (IF Outcome.r = "ok" /\ ~(node \in Longs) THEN [i \in 1..Len(Outcome.n) |-> Sem(Outcome.n[i])] ELSE <<>>),
-           rt |-> RoundTrip, mutable |-> (node \in MutNodes), long |-> (node \in Longs)]
-     ELSE [kind |-> "mut", node |-> node, mut |-> mut, dec |-> Outcome.r, framed |-> Framed(Enc(node), mut),
-           total |-> DecTotal])>>)
+     THEN [kind |-> "rt", node |-> node, sem |-> Sem(node), toks |-> (IF quiet THEN <<>> ELSE TokJ(tk)),
+           ntoks |-> Len(tk), bytes |-> ByteLen(tk),
+           dec |-> o.r, got |-> (IF o.r = "ok" /\ ~quiet THEN [i \in 1..Len(o.n) |-> Sem(o.n[i])] ELSE <<>>),
+           rt |-> RoundTripOf(o), mutable |-> (node \in MutNodes), long |-> quiet]
+     ELSE [kind |-> "mut", node |-> node, mut |-> mut, dec |-> o.r, framed |-> Framed(Enc(node), mut),
+           total |-> DecTotalOf(o)])>>)
 EmitInv == Emit
 =============================================================================
